@@ -844,7 +844,7 @@ pub fn respell_table(rng: &mut Rng, t: &TableDef) -> TableDef {
                 if let TableConstraint::PrimaryKey { auto_increment, columns } = t.constraints[pos].clone() {
                     let decl: Vec<String> = t.columns.iter().map(|c| c.name.clone()).filter(|n| columns.contains(n)).collect();
                     let distinct = t.columns.iter().filter(|c| columns.contains(&c.name)).count() == columns.len();
-                    if decl == columns && distinct && !t.constraints.iter().enumerate().any(|(i, c)| i != pos && matches!(c, TableConstraint::PrimaryKey { .. })) {
+                    if !columns.is_empty() && decl == columns && distinct && !t.constraints.iter().enumerate().any(|(i, c)| i != pos && matches!(c, TableConstraint::PrimaryKey { .. })) {
                         t.constraints.remove(pos);
                         for c in t.columns.iter_mut() {
                             if columns.contains(&c.name) {
@@ -876,7 +876,12 @@ pub fn respell_table(rng: &mut Rng, t: &TableDef) -> TableDef {
                 _ => false,
             });
             match (cur, tl) {
-                (Some(StrOrBoolOrArray::Bool(true)), None) => {
+                (Some(StrOrBoolOrArray::Bool(true)), None) if t.columns.iter().filter(|c| c.name == cn).count() == 1
+                    && !t.columns.iter().any(|c| {
+                        // another column naming its group "__auto_<cn>" would merge with this column's anonymous group (table.rs:129,165)
+                        let names = |v: &Option<StrOrBoolOrArray>| match v { Some(StrOrBoolOrArray::Str(n)) => vec![n.clone()], Some(StrOrBoolOrArray::Array(l)) => l.clone(), _ => vec![] };
+                        names(&c.unique).iter().chain(names(&c.index).iter()).any(|n| *n == format!("__auto_{}", cn))
+                    }) => {
                     if unique { t.columns[ci].unique = None } else { t.columns[ci].index = None }
                     t.constraints.push(if unique {
                         TableConstraint::Unique { name: None, columns: vec![cn] }
